@@ -12,6 +12,37 @@ import (
 	"time"
 )
 
+// hangSink receives the description of a chunk that does not return (set by NewCheck); it does not return either.
+var hangSink func(msg string)
+
+// HangLimit is how long one chunk of cases may run before it is called a hang (VERIF_HANG_S, default 600 s:
+// two to three orders of magnitude above the slowest chunk observed, see max_chunk_s in the evidence).
+func HangLimit() time.Duration {
+	if s := os.Getenv("VERIF_HANG_S"); s != "" {
+		if f, err := strconv.ParseFloat(s, 64); err == nil && f > 0 {
+			return time.Duration(f * float64(time.Second))
+		}
+	}
+	return 600 * time.Second
+}
+
+var maxChunkNanos atomic.Int64
+
+func noteChunk(d time.Duration) {
+	for {
+		cur := maxChunkNanos.Load()
+		if int64(d) <= cur || maxChunkNanos.CompareAndSwap(cur, int64(d)) {
+			return
+		}
+	}
+}
+
+// MaxChunk is the longest time any chunk of cases took so far in this process.
+func MaxChunk() time.Duration { return time.Duration(maxChunkNanos.Load()) }
+
+// panicSink receives panics that escape a worker's chunk (set by NewCheck).
+var panicSink func(msg string)
+
 // Workers is the number of worker goroutines used by ParRange.
 func Workers() int {
 	if s := os.Getenv("VERIF_WORKERS"); s != "" {
@@ -38,6 +69,36 @@ func ParRange(total, chunk uint64, stop func() bool, fn func(worker int, lo, hi 
 	var next uint64
 	var wg sync.WaitGroup
 	n := Workers()
+	// Liveness: a chunk (microseconds to seconds of work) that is still running after HangLimit is a hang of
+	// the code under test. A stuck goroutine cannot be cancelled, so hangSink reports and ends the process.
+	started := make([]atomic.Int64, n) // unix nanos, 0 = idle
+	ranges := make([][2]uint64, n)
+	var rmu sync.Mutex
+	quit := make(chan struct{})
+	go func() {
+		t := time.NewTicker(5 * time.Second)
+		defer t.Stop()
+		for {
+			select {
+			case <-quit:
+				return
+			case <-t.C:
+				now := time.Now().UnixNano()
+				for w := range started {
+					if s := started[w].Load(); s != 0 && time.Duration(now-s) > HangLimit() {
+						rmu.Lock()
+						r := ranges[w]
+						rmu.Unlock()
+						if hangSink != nil {
+							hangSink(fmt.Sprintf("a worker has been inside cases [%d,%d) for more than %v", r[0], r[1], HangLimit()))
+						}
+						return
+					}
+				}
+			}
+		}
+	}()
+	defer close(quit)
 	for w := 0; w < n; w++ {
 		wg.Add(1)
 		go func(w int) {
@@ -54,7 +115,22 @@ func ParRange(total, chunk uint64, stop func() bool, fn func(worker int, lo, hi 
 				if hi > total {
 					hi = total
 				}
-				fn(w, lo, hi)
+				rmu.Lock()
+				ranges[w] = [2]uint64{lo, hi}
+				rmu.Unlock()
+				t0 := time.Now()
+				started[w].Store(t0.UnixNano())
+				if msg := Catch(func() { fn(w, lo, hi) }); msg != "" {
+					// A panic that no per-case handler caught: report it as a violation instead of crashing
+					// the check (the rest of the chunk is lost, which the violation makes moot).
+					if panicSink != nil {
+						panicSink(fmt.Sprintf("cases [%d,%d): %s", lo, hi, msg))
+					} else {
+						panic(msg)
+					}
+				}
+				started[w].Store(0)
+				noteChunk(time.Since(t0))
 			}
 		}(w)
 	}
